@@ -8,6 +8,32 @@ V = os.path.dirname(os.path.dirname(os.path.abspath(__file__)))
 TECH = "symbolic execution of clang-14 LLVM IR (own interpreter) + z3 SMT queries"
 
 CHECKS = {
+    "C02": dict(
+        cat="proof",
+        text="The real BigInt/FpBase/Fp templates and Fq/Fr code are lowered to IR from the current tree and executed symbolically: add, subtract, "
+             "double, negate, reduce, compare, equality, bit/shift/byte I/O and hash reduction over 256/384-bit bit-vectors (z3 QF_BV decides "
+             "result == integer arithmetic mod p, result < p, on every path, for all operands below p); full product, square and Montgomery "
+             "reduction over affine integer forms with opaque word products (z3 QF_LIA decides the product identity and T*2^N = a + U*p, T < 2p "
+             "for every input below p*2^N). The Fp layer is shown to forward to these kernels with the field's own modulus/inverse word, and the "
+             "constants R, R^2, -p^-1, one, negative_one are ground-checked. Fr (all configurations use the generic code), Fq in the portable "
+             "64-bit and (thorough) 32-bit configurations; Fq in the shipped x86-64 build is the assembly decided by C03 plus the forwarding glue here. "
+             "Loops have concrete trip counts and run in full: no unwinding bound.",
+        note="Data-dependent loops (fp_inverse, exponentiate, legendre, square roots, random) are covered only where obligations c02_loops exist; "
+             "Fr::square_root (Tonelli-Shanks) is outside. Trusted: Montgomery uniqueness, clang -O1 vs -Ofast, z3.",
+        tech="LLVM-IR symbolic execution; QF_BV VCs for linear kernels, QF_LIA VCs (affine substitution form, opaque word products) for products and Montgomery reduction",
+        ref="5/C02"),
+    "C03": dict(
+        cat="proof",
+        text="Each routine of the x86-64 baseline assembly, the x86-64 BMI2/ADX assembly (instruction stream produced by the assembler from the "
+             "current .s files), the portable 64-bit-word C++ and the portable 32-bit-word C++ (IR of the current tree) is symbolically executed "
+             "and proved equal, for all operand values, to one shared integer specification per kernel (sum, carry/borrow, modular sum/difference/"
+             "double, full 768-bit product and square, Montgomery reduction below p*2^384), with output aliasing the first operand or not; the "
+             "CPUID dispatch table is shown to be all-baseline or all-BMI2. Bit-identity across back ends follows from equality with the same function. "
+             "Counterexamples are replayed natively (both x86 variants are callable by symbol on this host; portable builds are rebuilt).",
+        note="NOT covered: the AArch64 and ARMv6-M assembly sources (no interpreter for those ISAs was built; they cannot execute here either). "
+             "Trusted: x86-64 instruction semantics as implemented in engine/easm_x86.py, the assembler/disassembler, Montgomery uniqueness, z3.",
+        tech="symbolic execution of the assembled x86-64 instruction stream and of LLVM IR over affine integer forms; QF_LIA / QF_BV VCs in z3; native replay",
+        ref="5/C03"),
     "C04": dict(
         cat="proof",
         text="Every Fq2/Fq6/Fq12 method is symbolically executed from the IR of the current tree over free field indeterminates and "
